@@ -126,6 +126,7 @@ type exRec struct {
 	sameReq                 bool
 	https, sec, tlsAttached bool
 	upCount                 int
+	dialed                  int // dial attempts toward a scripted target on behalf of this exchange
 	upTLS                   bool
 	upWarn                  int
 	resReqWarn              int
@@ -353,6 +354,14 @@ func (e *Ex) buildRequest(id string, it *item) []byte {
 	host := e.originAddr
 	if it.s("sec", "0") == "1" {
 		host = e.originTLSAddr
+	}
+	if it.s("o", "ok") == "fail" { // dial-level failures: nothing ever listens / answers there
+		switch it.s("fk", "none") {
+		case "refuse":
+			host = "dead.test:1"
+		case "dtimeout":
+			host = "timeout.test:1"
+		}
 	}
 	path := pathOf(id, it)
 	target := path
@@ -656,14 +665,21 @@ func (e *Ex) start() {
 	p.SetDial(func(network, addr string) (net.Conn, error) {
 		e.w.mu.Lock()
 		e.w.dials++
-		if it, ok := e.w.items[e.w.current]; ok && it.kind == "cblind" && strings.HasSuffix(addr, ".test:1") {
+		if _, ok := e.w.items[e.w.current]; ok && strings.HasSuffix(addr, ".test:1") {
+			// a dial attempt toward a scripted target is upstream contact of the current exchange
 			r := e.w.rec(e.w.current)
-			r.upCount++
+			r.dialed++
 			r.upSeq = e.w.next()
 		}
 		e.w.mu.Unlock()
 		if strings.HasPrefix(addr, "dead.") {
 			return net.DialTimeout(network, deadAddr, 2*time.Second)
+		}
+		if strings.HasPrefix(addr, "timeout.") { // what an unresponsive host produces, without the wait
+			return nil, &net.OpError{Op: "dial", Net: network, Err: timeoutError{}}
+		}
+		if strings.HasPrefix(addr, "eof.") { // e.g. a downstream hop that hangs up during the dial
+			return nil, io.EOF
 		}
 		if strings.HasPrefix(addr, "echo.") {
 			return net.DialTimeout(network, echoAddr, 2*time.Second)
@@ -852,7 +868,10 @@ func (e *Ex) runScenario() core.Result {
 				if it.kind == "cblind" {
 					authority = "echo.test:1"
 					if it.s("dial", "1") == "0" {
-						authority = "dead.test:1"
+						authority = map[string]string{"timeout": "timeout.test:1", "eof": "eof.test:1"}[it.s("dk", "refuse")]
+						if authority == "" {
+							authority = "dead.test:1"
+						}
 					}
 				}
 				fmt.Fprintf(cc.c, "CONNECT %s HTTP/1.1\r\nHost: %s\r\n%s: %s\r\n\r\n", authority, authority, idHeader, id)
@@ -937,6 +956,12 @@ type bufConn struct {
 
 func (b *bufConn) Read(p []byte) (int, error) { return b.r.Read(p) }
 
+type timeoutError struct{}
+
+func (timeoutError) Error() string   { return "i/o timeout" }
+func (timeoutError) Timeout() bool   { return true }
+func (timeoutError) Temporary() bool { return true }
+
 func isTimeout(err error) bool {
 	var ne net.Error
 	return err != nil && errors.As(err, &ne) && ne.Timeout()
@@ -976,7 +1001,7 @@ func (e *Ex) report(open bool, left int, probeID string) core.Result {
 			continue
 		}
 		upt := "-"
-		if it.kind == "x" && r.upCount > 0 {
+		if it.kind == "x" && (r.upCount > 0 || r.dialed > 0) {
 			upt = b01(r.upTLS)
 		}
 		wq := r.resReqWarn
@@ -992,7 +1017,7 @@ func (e *Ex) report(open bool, left int, probeID string) core.Result {
 			hij = r.hij
 		}
 		parts = append(parts, fmt.Sprintf("%d:rq=%d,up=%s,uptls=%s,rs=%d,wq=%d,wt=%d,ws=%d,st=%s,cm=%s,cp=%s,https=%s,sec=%s,tls=%s,hij=%s",
-			idx, r.reqmod, b01(r.upCount > 0), upt, r.resmod, wq, r.wt, r.ws, st, cm, cp, b01(r.https), b01(r.sec), b01(r.tlsAttached), hij))
+			idx, r.reqmod, b01(r.upCount > 0 || r.dialed > 0), upt, r.resmod, wq, r.wt, r.ws, st, cm, cp, b01(r.https), b01(r.sec), b01(r.tlsAttached), hij))
 
 		// ---------------- property oracles (independent of the Lean model) ----------------
 		rq, rs := it.s("rq", "pass"), it.s("rs", "pass")
@@ -1003,7 +1028,7 @@ func (e *Ex) report(open bool, left int, probeID string) core.Result {
 		if r.reqmod != 1 {
 			failf("c02:reqmod-count", "exchange %d: request modifier ran %d times", idx, r.reqmod)
 		}
-		if r.upCount > 0 && r.upSeq < r.reqSeq {
+		if (r.upCount > 0 || r.dialed > 0) && r.upSeq < r.reqSeq {
 			failf("c02:upstream-before-reqmod", "exchange %d: upstream contact before the request modifier", idx)
 		}
 		hijackedHere := r.hij == "raw" || r.hij == "tls"
@@ -1046,7 +1071,7 @@ func (e *Ex) report(open bool, left int, probeID string) core.Result {
 			failf("c02:error-aborted-exchange", "exchange %d: a modifier error aborted the exchange (no response)", idx)
 		}
 		if it.kind == "x" && (rq == "skip" || rq == "errskip") {
-			if r.upCount != 0 {
+			if r.upCount != 0 || r.dialed != 0 {
 				failf("c02:skip-contacted-upstream", "exchange %d: skip round trip but the origin was contacted", idx)
 			}
 			if r.got && r.st != 200 {
